@@ -51,9 +51,9 @@ def plan(plan, tier, seed):
     plan.dropped.append(vC16.tail_loop_fn.__doc__.strip())
     n7 = "C16.verus.pattern_matches_value.variable_patterns_bind_or_compare"
     plan.ob(n7, "verus", "proved", functions=["src/interpreter/src/patterns.rs: pattern_matches_value_with_semantics (the arms for a variable pattern: `Expression::Var` and a variable wrapped in an expression)"],
-            what="for every environment of bindings made so far and every matched part: an unbound pattern variable matches and is bound to exactly that part (nothing else in the environment changes); a variable already bound (repeated in the pattern) matches iff the part equals its binding, and is not rebound")
+            what="for every environment of bindings made so far and every matched part: an unbound pattern variable matches and is bound to exactly that part (nothing else in the environment changes); a variable already bound (repeated in the pattern) matches iff the part equals its binding, and is not rebound; any other expression pattern is evaluated under the bindings made so far and matches iff its value matches the part (option-guard semantics: a boolean value is the answer), binding nothing")
     try:
-        utext, fns = vC16.varpat_unit(vlib.read_repo(vC16.PPATH))
+        utext, fns = vC16.varpat_unit(vlib.read_repo(vC16.PPATH), feats)
         plan.verus.append(VerusUnit("c16_varpat", utext, {f: n7 for f in fns}, ["canary_varpat"]))
     except AnchorLost as e:
         plan.anchor_errors.append((n7, str(e)))
